@@ -160,7 +160,7 @@ def shared_signature():
     return tuple(sig)
 
 
-def run_one(names, segments, r, tail=None, scope=""):
+def run_one(names, segments, r, tail=None, scope="", post=True):
     jobs = [make_job(n) for n in names]
     import sys as _sys
     g0 = (_sys.getrecursionlimit(), _sys.getswitchinterval())
@@ -178,7 +178,7 @@ def run_one(names, segments, r, tail=None, scope=""):
     r.evaluations += 1
     r.transitions += len(trace) + 1
     want = [_SERIAL[n] for n in names]
-    after = post_probe()
+    after = post_probe() if post else _POST_REF
     if after != _POST_REF:
         k = [i for i, (a, b) in enumerate(zip(after, _POST_REF)) if a != b][0]
         r.violation("library-left-damaged-after-concurrent-calls",
@@ -228,7 +228,7 @@ def run(task):
             r.states += 1
             if kind == "b2":
                 for k2 in range(st[other]):
-                    run_one(names, [(first, k), (other, k2), (first, None)], r, tail=[other])
+                    run_one(names, [(first, k), (other, k2), (first, None)], r, tail=[other], post=False)
                     r.states += 1
         if c == 0:
             r.sample({"scope": scope, "jobs": [list(JOBS[x][:2]) for x in names], "events_per_thread_serial": list(steps0),
